@@ -101,7 +101,53 @@ func wrongValue(g *RNG, f optField) string {
 	return pick(g, []string{"7", "false"})
 }
 
+// flippedSection moves every option of a lint away from the constructor's
+// default (booleans negated, integers to 0 or default+17, strings changed): the
+// values most likely to change the lint's verdict.
+func flippedSection(g *RNG, name string) string {
+	var inst any
+	r := lint.GlobalRegistry()
+	if l := r.CertificateLints().ByName(name); l != nil {
+		inst = l.Lint()
+	} else if l := r.RevocationListLints().ByName(name); l != nil {
+		inst = l.Lint()
+	} else if l := r.OcspResponseLints().ByName(name); l != nil {
+		inst = l.Lint()
+	}
+	c, ok := inst.(lint.Configurable)
+	if !ok {
+		return ""
+	}
+	v := reflect.Indirect(reflect.ValueOf(c.Configure()))
+	var sb strings.Builder
+	fmt.Fprintf(&sb, "[%s]\n", name)
+	for _, f := range configurableFields(name) {
+		fv := fieldByTOMLName(v, f.Name)
+		switch f.Kind {
+		case "bool":
+			fmt.Fprintf(&sb, "%s = %v\n", f.Name, !(fv.IsValid() && fv.Bool()))
+		case "int":
+			x := int64(0)
+			if fv.IsValid() && fv.CanInt() && fv.Int() == 0 || g.Chance(0.3) {
+				x = 17
+				if fv.IsValid() && fv.CanInt() {
+					x += fv.Int()
+				}
+			}
+			fmt.Fprintf(&sb, "%s = %d\n", f.Name, x)
+		case "string":
+			fmt.Fprintf(&sb, "%s = \"flipped-%d\"\n", f.Name, g.Intn(100))
+		}
+	}
+	return sb.String()
+}
+
 func legalSection(g *RNG, name string, fields []optField) string {
+	if g.Chance(0.45) {
+		if s := flippedSection(g, name); s != "" {
+			return s
+		}
+	}
 	var sb strings.Builder
 	fmt.Fprintf(&sb, "[%s]\n", name)
 	for _, f := range fields {
